@@ -1,7 +1,11 @@
 (* Entry/EntryC15.v — case format for C15 (per-invocation line copies).
-   INPUT = [line; verb; dec nfg; dec nbg; dec seed]
+   INPUT = [line; verb; dec nfg; dec nbg; dec seed; mode; gomaxprocs1]
      line : what the server sends (without CRLF); verb: the name the handlers are registered under;
-     nfg / nbg foreground / background handlers, plus one late background handler; seed: scribbling.
+     nfg / nbg foreground / background handlers; seed: scribbling.
+     mode "": free running, plus one late background handler;
+     mode "lonefg" / "lonebg": that set has exactly ONE handler, which scribbles over everything as soon
+       as it has recorded its snapshot; the handlers of the other set record only after it has finished
+       (channel synchronisation in the harness); no late handler.  gomaxprocs1 = "1": GOMAXPROCS(1).
    OBS   = one record per handler in the order f0.. b0.. late:
      [who; nick; ident; host; src; cmd; raw; dec nargs; arg...; "nil" | dec ntags; key; value; ...]
      — the deep snapshot the handler took of its *Line BEFORE scribbling over it (tags sorted by key).
@@ -16,9 +20,10 @@ Definition lval_of_line (l : line) : lval :=
 
 Definition who_f : N := 102%N.  Definition who_b : N := 98%N.
 Definition who_late : bytes := [108;97;116;101]%N.
-Definition whos (nfg nbg : nat) : list bytes :=
+Definition whos (nfg nbg : nat) (late : bool) : list bytes :=
   map (fun i => who_f :: dec_of_N (N.of_nat i)) (seq 0 nfg)
-  ++ map (fun i => who_b :: dec_of_N (N.of_nat i)) (seq 0 nbg) ++ [who_late].
+  ++ map (fun i => who_b :: dec_of_N (N.of_nat i)) (seq 0 nbg) ++ (if late then [who_late] else []).
+Definition has_late (i : list bytes) : bool := match get i 5 with [] => true | _ => false end.
 
 Fixpoint flat_tags (m : tagmap) : list bytes :=
   match m with [] => [] | (k, v) :: m' => k :: v :: flat_tags m' end.
@@ -36,7 +41,7 @@ Definition expected (i : list bytes) : option lval :=
   end.
 Definition model_C15 (i : list bytes) : list bytes :=
   match expected i with
-  | Some v => flat_map (fun w => render w v) (whos (get_nat i 2) (get_nat i 3))
+  | Some v => flat_map (fun w => render w v) (whos (get_nat i 2) (get_nat i 3) (has_late i))
   | None => [tag_bad]
   end.
 
@@ -74,7 +79,7 @@ Fixpoint dec_snaps (fuel : nat) (o : list bytes) : option (list lval) :=
 Definition oracle_C15 (i o : list bytes) : bool :=
   match expected i, dec_snaps (S (length o)) o with
   | Some v, Some snaps =>
-      (length snaps =? get_nat i 2 + get_nat i 3 + 1)%nat && C15_ok v snaps
+      (length snaps =? get_nat i 2 + get_nat i 3 + (if has_late i then 1 else 0))%nat && C15_ok v snaps
   | _, _ => false
   end.
 
